@@ -45,8 +45,9 @@ class AlgopyBackend(object):
     """Primitives expressed through algopy's generic functions and Python
     operators only."""
 
-    def __init__(self, algopy):
+    def __init__(self, algopy, traced=False):
         self.al = algopy
+        self.traced = traced      # True while a program is being recorded
         al = algopy
         self.un = {
             'sin': al.sin, 'cos': al.cos, 'exp': al.exp, 'tan': al.tan, 'sqrt': al.sqrt,
@@ -64,6 +65,11 @@ class AlgopyBackend(object):
 
     def const_array(self, nested):
         return numpy.array(nested, dtype=float)
+
+    def wrap_const(self, value):
+        """A constant the program wraps explicitly: a tracer node while recording, the plain
+        number otherwise."""
+        return self.al.Function(float(value)) if self.traced else float(value)
 
     def unary(self, name, v):
         return self.un[name](v)
@@ -128,6 +134,8 @@ def exec_instr(ins, regs, B):
     """Execute one instruction; returns the new register's value."""
     op = ins['op']
     A = [operand(o, regs, B) for o in ins['a']]
+    if op == 'wrapc':
+        return B.wrap_const(ins['value'])
     if op == 'add':
         return A[0] + A[1]
     if op == 'sub':
@@ -287,8 +295,11 @@ class Gen(object):
     """Builds one well-formed program.  `truth_only` restricts the op set to
     the truth catalogue T (DESIGN 3.3)."""
 
-    def __init__(self, rng, family, n_in, out_shapes, size, truth_only=False, off_prob=0.0):
+    def __init__(self, rng, family, n_in, out_shapes, size, truth_only=False, off_prob=0.0, prelude=False):
         self.off_prob = off_prob
+        self.prelude = prelude
+        self.pre_buf = None
+        self.npre = 0
         self.rng = rng
         self.family = family
         self.n_in = list(n_in)
@@ -782,7 +793,15 @@ class Gen(object):
         two_d = rng.random() < 0.3
         shape = (rng.randint(2, 3), rng.randint(2, 3)) if two_d else (rng.randint(2, 4),)
         alloc = 'zeros' if rng.random() < 0.8 else 'ones'
-        buf = self.emit(alloc, [0], shape, 1.0, t=True, p=True, kind='buf', shape=list(shape))
+        if self.pre_buf is not None:
+            # the buffer that was allocated in the prelude, before the inputs were wrapped
+            buf = self.pre_buf
+            self.pre_buf = None
+            shape = self.regs[buf].sh
+            two_d = len(shape) == 2
+            self.regs[buf].kind = 'buf'
+        else:
+            buf = self.emit(alloc, [0], shape, 1.0, t=True, p=True, kind='buf', shape=list(shape))
         bmag = [1.0]
         reads = []
         views = []          # registers that are (possibly) views of the buffer
@@ -1106,6 +1125,13 @@ class Gen(object):
             return self.program()
         rng = self.rng
         fam = self.family
+        if self.prelude:
+            # executed BEFORE the inputs are wrapped: an explicitly wrapped constant and a buffer
+            # typed by it (a plain float buffer, so such programs are run with ndarray operands)
+            cst = self.emit('wrapc', [], (), 2.0, t=False, p=False, value=_q(rng, -2.0, 2.0, 0.25))
+            shape = (rng.randint(2, 4),)
+            self.pre_buf = self.emit('zeros', [cst], shape, 1.0, t=False, p=False, kind='buf', shape=list(shape))
+            self.npre = len(self.instrs)
         base = [(self.op_binary, 6), (self.op_powint, 1.5), (self.op_neg, 0.7), (self.op_sum, 1.5),
                 (self.op_dot, 1.5), (self.op_outer_same, 0.8), (self.op_reshape, 0.8),
                 (self.op_transpose, 0.7), (self.op_getitem, 2.5), (self.op_divconst, 0.7)]
@@ -1177,6 +1203,9 @@ class Gen(object):
 
     def finish(self):
         rng = self.rng
+        if self.pre_buf is not None:
+            self.regs[self.pre_buf].kind = 'v'
+            self.pre_buf = None
         self.outputs = []
         for sh in self.out_shapes:
             leaves = [i for i in self.values() if not self.regs[i].used and i >= len(self.n_in)]
@@ -1216,11 +1245,12 @@ class Gen(object):
             'exact': all(i['p'] for i in self.instrs) and not self.stale_views,
             'stale_views': self.stale_views,
             'frozen': any(i.get('off') for i in self.instrs),
+            'npre': self.npre,
         }
 
 
-def gen_program(rng, family, n_in, out_shapes, size, truth_only=False, off_prob=0.0):
-    return Gen(rng, family, n_in, out_shapes, size, truth_only, off_prob).build()
+def gen_program(rng, family, n_in, out_shapes, size, truth_only=False, off_prob=0.0, prelude=False):
+    return Gen(rng, family, n_in, out_shapes, size, truth_only, off_prob, prelude).build()
 
 
 def run_program_frozen(prog, inputs, B, frozen_regs):
